@@ -154,6 +154,27 @@ func driveC13(seed int64, tier, out, replay string) {
 			}
 		}
 	}
+	// listed findings: an operation on the hand-written federation whose answers differ between sends
+	if hand, err := NewRig(handWorld(), RigConfig{}); err == nil {
+		for _, kf := range loadKnown("C13") {
+			var kc struct {
+				Op gen.GenOp `json:"operation"`
+			}
+			if jsonUnmarshal(kf.Input, &kc) != nil {
+				continue
+			}
+			answers := map[string]bool{}
+			for i := 0; i < 80; i++ {
+				resp, _ := hand.Do(kc.Op)
+				answers[fake.CanonJSON(resp)] = true
+			}
+			if len(answers) > 1 {
+				obs.KnownHit = append(obs.KnownHit, hx.Failure{Key: kf.Key, What: kf.Key + ": " + kf.What})
+			} else {
+				obs.KnownGone = append(obs.KnownGone, kf.Key)
+			}
+		}
+	}
 	var coq []string
 	distinct := map[string]bool{}
 	rigs := map[int64]*Rig{}
@@ -175,7 +196,13 @@ func driveC13(seed int64, tier, out, replay string) {
 		if c.Op != nil {
 			op = *c.Op
 		} else {
-			op = gen.Operation(hx.NewRand(c.OpSeed), r.Merged, opOptionsFor("inD01", r.World))
+			orng := hx.NewRand(c.OpSeed)
+			op = gen.Operation(orng, r.Merged, opOptionsFor("inD01", r.World))
+			if orng.Intn(4) == 0 {
+				if mop, ok := gen.MultiNodeRootOperation(orng, r.Merged, opOptionsFor("inD01", r.World)); ok {
+					op = mop
+				}
+			}
 			c.Op = &op
 		}
 		o := selectedOp(r.Merged, op)
@@ -207,7 +234,11 @@ func driveC13(seed int64, tier, out, replay string) {
 		var pe executor.ParallelExecutor
 		before, xerr := pe.Execute(&executor.ExecutionContext{QueryPlan: plan, Request: &requests.Request{Query: op.Query, Variables: op.Variables}, Queryers: qs})
 		line := "mkCase [] [] []"
-		if xerr == nil && before != nil {
+		listedShape := false // node roots spanning services: the scrub table's hypothesis does not hold (listed finding)
+		for _, f := range op.Features {
+			listedShape = listedShape || f == "multi_node_root"
+		}
+		if xerr == nil && before != nil && !listedShape {
 			beforeCoq := jsonObjToCoq(before)
 			plan.ScrubFields.Clean(before)
 			line = fmt.Sprintf("mkCase %s\n    %s\n    %s", scrubToCoq(plan.ScrubFields), beforeCoq, jsonObjToCoq(before))
@@ -248,7 +279,14 @@ func driveC13(seed int64, tier, out, replay string) {
 				data0, errs0, subs0 = data, es, subs
 				continue
 			}
+			nodeRoots := false
+			for _, f := range op.Features {
+				nodeRoots = nodeRoots || f == "multi_node_root"
+			}
 			switch {
+			case nodeRoots && subs == subs0:
+				// listed finding C13-node-root-scrub-order: the data of node roots spanning services is compared
+				// in the finding's own replay; here the sub-requests (and above, the plans) must be stable
 			case data != data0:
 				what = fmt.Sprintf("the same operation returned different data on send %d: %s vs %s", i+1, shortStr(data, 250), shortStr(data0, 250))
 			case es != errs0:
